@@ -494,17 +494,12 @@ class Data(object):
             if not found_obs:
                 verif.util.error("No files have observations")
 
-            # Only cache once all inputs have been loaded, so that a failure
-            # part way does not leave some inputs cached without the others
-            for i in loaded:
-                self._get_score_cache[i][key] = loaded[i]
-
             for i in range(num_inputs):
-                if key not in self._get_score_cache[i]:
+                if i not in loaded:
                     for j in range(num_inputs):
-                        if key in self._get_score_cache[j]:
+                        if j in loaded:
                             verif.util.warning("No observations in %s. Loading from %s" % (self._inputs[i].fullname, self._inputs[j].fullname))
-                            self._get_score_cache[i][key] = self._get_score_cache[j][key]
+                            loaded[i] = loaded[j]
                             break
         else:
             # Check if data is cached
@@ -595,11 +590,8 @@ class Data(object):
                     temp = temp[:, :, Ilocations]
 
                     loaded[i] = temp
-
-            # Only cache once all inputs have been loaded, so that a failure
-            # part way does not leave some inputs cached without the others
-            for i in loaded:
-                self._get_score_cache[i][key] = loaded[i]
+                else:
+                    loaded[i] = self._get_score_cache[i][key]
 
         """
         Remove missing. If one configuration has a missing value, set all
@@ -609,13 +601,19 @@ class Data(object):
         if self._remove_missing_across_all:
             # Infinite values are treated like missing values (get_scores
             # discards them), so they must also be removed for all inputs
-            is_missing = np.isfinite(self._get_score_cache[0][key]) == 0
+            is_missing = np.isfinite(loaded[0]) == 0
             for i in range(1, num_inputs):
-                is_missing = is_missing | (np.isfinite(self._get_score_cache[i][key]) == 0)
+                is_missing = is_missing | (np.isfinite(loaded[i]) == 0)
             for i in range(num_inputs):
-                self._get_score_cache[i][key][is_missing] = np.nan
+                loaded[i][is_missing] = np.nan
 
-        return self._get_score_cache[input_index][key]
+        # Only cache once all inputs have been loaded and their missing values
+        # synchronised, so that a request that fails or is interrupted part way
+        # never leaves arrays cached that later requests would return as they are
+        for i in range(num_inputs):
+            self._get_score_cache[i][key] = loaded[i]
+
+        return loaded[input_index]
 
     def _calculate_window(self, array, leadtimes):
         O = array.shape[1]
